@@ -882,6 +882,9 @@ fn do_command_substitution_for_dollar(sh: &mut Shell, tokens: &mut types::Tokens
                 return;
             }
 
+            // the output is literal text: a `$` in it must not be read as a
+            // capture group reference of the replacement template
+            let output_txt = output_txt.replace('$', "$$");
             let to = format!("${{head}}{}${{tail}}", output_txt);
             let line_ = line.clone();
             let result = re.replace(&line_, to.as_str());
